@@ -163,6 +163,9 @@ def locate(src, t):
                 return "0"
             raise GenError("pattern %s not found in %s" % (t["first"], t.get("func", "file")))
         return "1" if a.start() < b.start() else "0"
+    if kind == "count":
+        # number of matches of "pattern" in the function body (comments stripped by source()), as a literal
+        return str(len(re.findall(t["pattern"], body, re.S)))
     if kind == "regex":
         m = re.search(t["pattern"], body, re.S)
         if not m:
@@ -222,6 +225,8 @@ def generate(comp, repo, outdir):
     for t in spec.get("defs", []):
         try:
             text = locate(source(t["file"]), t)
+            for pat, rep in t.get("subst", []):     # optional textual normalisation before parsing
+                text = re.sub(pat, rep, text)
             names = dict(known)
             for p in t.get("params", []):
                 names[p] = t.get("rename", {}).get(p, p.replace("::", "_").replace(".", "_").replace("->", "_"))
